@@ -580,3 +580,58 @@ def ex_match(c):
 
 
 EXECUTORS.update({"match": ex_match})
+
+
+# ---------------------------------------------------------------------------------------------- C02 recreate + match pipeline
+import math  # noqa: E402
+
+
+def pipeline_run(c, x, y):
+    w = Weaver(x, y)
+    if c["append"] != "none":
+        w.append_one_sample(make_periodic=(c["append"] == "periodic"))
+    cls = getattr(rfa_mod, RFA_CLASSES[c["strategy"]])
+    w.recreate_from_average(c["n"], rfa_class=cls, **rfa_kwargs(c))
+    kw = {"target_function_integral_method": c["trule"]}
+    if "malpha_f" in c or "malpha" in c:
+        kw["alpha"] = c["malpha_f"] if "malpha_f" in c else fl(c["malpha"])
+    w.integral_match(**kw)
+    return w
+
+
+def ex_pipeline(c):
+    if "dataset" in c:
+        from traffic_weaver.datasets import load_dataset
+        xy = load_dataset(c["dataset"])
+        step = c.get("stride", 1)
+        x, y = np.array(xy[::step, 0]), np.array(xy[::step, 1])
+    else:
+        x, y = arr(c["x"], c.get("container", "array")), arr(c["y"], c.get("container", "array"))
+    x0, y0 = np.array(x, dtype=float, copy=True), np.array(y, dtype=float, copy=True)
+    if c["append"] != "none":       # the documented reference: the original plus the appended sample (computed here, not read back)
+        x0 = np.append(x0, 2 * x0[-1] - x0[-2])
+        y0 = np.append(y0, y0[0] if c["append"] == "periodic" else y0[-1])
+    oc, w = guarded(lambda: pipeline_run(c, x, y))
+    e = {k: v for k, v in c.items() if k not in ("exp_f", "smooth_f", "malpha_f", "x", "y")}
+    e.update(m=len(x0), refxbits=[bits3(v) for v in x0])
+    if oc != "ok":
+        e.update(outcome=oc, kind="none", yf=[], out=[], nthbits=[], avgxbits=[], avgy=[])
+        return e
+    gx, gy = w.get()
+    kx, ky = kind(gx), kind(gy)
+    try:
+        ga = np.asarray(gy, dtype=float)
+        mx = max(float(np.max(np.abs(y0))), float(np.max(np.abs(ga)))) if ga.ndim == 1 and np.all(np.isfinite(ga)) else 1.0
+    except Exception:
+        ga, mx = np.array([]), 1.0
+    p = 0 if mx == 0 else 1 - int(math.floor(math.log10(mx)))     # scaled magnitudes in [10, 100)
+    sc = 10.0 ** p
+    aoc, av = guarded(lambda: proc.average(np.asarray(gx, dtype=float), np.asarray(gy, dtype=float), c["n"]))
+    gxa = np.asarray(gx, dtype=float).ravel()
+    e.update(outcome="ok", kind=kx if kx == ky else kx + "/" + ky, yf=fxs(y0 * sc), out=vec(ga * sc) if ga.ndim == 1 else [[5, 0, 0]],
+             nthbits=[bits3(v) for v in gxa[::c["n"]]], scale_pow10=p,
+             avgxbits=[bits3(v) for v in av[0]] if aoc == "ok" else [], avgy=fxs(np.asarray(av[1]) * sc) if aoc == "ok" else [])
+    return e
+
+
+EXECUTORS.update({"pipeline": ex_pipeline})
